@@ -150,6 +150,10 @@ Proof.
     apply in_app_or in Hy. destruct Hy as [Hy | Hy]; [right; exact Hy | left; apply Hin; eapply skipn_In; eauto].
   - (* list ExtendSelf *) repeat split; auto using incl_appl, incl_refl.
     intros y Hy. apply in_or_app. apply in_app_or in Hy. destruct Hy as [Hy | Hy]; auto.
+  - (* list SetSliceView *) repeat split; auto using incl_appl, incl_refl.
+    intros y Hy. unfold py_setslice in Hy. apply in_or_app.
+    apply in_app_or in Hy. destruct Hy as [Hy | Hy]; [left; apply Hin; eapply firstn_In; eauto|].
+    apply in_app_or in Hy. destruct Hy as [Hy | Hy]; [right; exact Hy | left; apply Hin; eapply skipn_In; eauto].
   - (* list IAugAlias *) repeat split; auto using incl_appl, incl_refl.
     intros y Hy. apply in_app_or in Hy. apply in_or_app. destruct Hy as [Hy | Hy]; auto.
   - (* set Assign *) repeat split; auto using incl_appl, incl_refl.
@@ -273,3 +277,8 @@ Lemma old_alias_inplace_unrecorded :
   (let s := builtin_iaug KList [1] (init KList []) in In 1 (items s) /\ ~ In 1 (rec s))
   /\ (let s := fst (step KList (IAugAlias [1]) (init KList [])) in In 1 (items s) /\ In 1 (rec s)).
 Proof. simpl. split; split; auto. Qed.
+
+(* x.f.extend(v for v in [1; 1] if v not in x.f) on an empty field: Python adds 1 once, the copy-first extend twice (C16-o) *)
+Theorem refuted_extend_lazy :
+  items (extend_copy_first_new [1; 1] (init KList [])) = [1; 1] /\ extend_lazy_new [1; 1] [] = [1].
+Proof. split; vm_compute; reflexivity. Qed.
